@@ -1,0 +1,36 @@
+//go:build verif
+
+// Contracts of package nut12 for the govc verifier (/verif). Comment-only file,
+// compiled only with the build tag `verif`.
+package nut12
+
+//@ func ParseDLEQ
+//@   tags C10
+//@   safety C06 C10
+//@   ensures @e [C10] r3 == nil ==> r0 != nil && r1 != nil && hexok(dleq.E) && hexok(dleq.S) && sc.of(r0.Key) == sc.frombytes(hexdec(dleq.E)) && sc.of(r1.Key) == sc.frombytes(hexdec(dleq.S))
+//@   ensures @r [C10] r3 == nil ==> (dleq.R == "" <==> r2 == nil) && (r2 != nil ==> hexok(dleq.R) && sc.of(r2.Key) == sc.frombytes(hexdec(dleq.R)))
+
+// A proof carrying (e, s, r) is checked by re-blinding: B' = Y + rG, C' = C + rA.
+//@ func VerifyProofDLEQ
+//@   tags C10
+//@   safety C06 C10
+//@   requires proof.DLEQ != nil && A != nil
+//@   assumes result == dleq.verdict(proof, *A)
+//@   calls crypto.VerifyDLEQ asserts @reblinded [C10] hexok(proof.DLEQ.E) && sc.of(e.Key) == sc.frombytes(hexdec(proof.DLEQ.E)) && sc.of(s.Key) == sc.frombytes(hexdec(proof.DLEQ.S)) && pk.pt(*B_) == padd(h2c(bytesOf(proof.Secret)), smul(sc.frombytes(hexdec(proof.DLEQ.R)), pt.G)) && hexok(proof.C) && pk.pt(*C_) == padd(pt.parse(hexdec(proof.C)), smul(sc.frombytes(hexdec(proof.DLEQ.R)), pk.pt(*A))) && pk.pt(*A) == old(pk.pt(*A))
+//@   ensures @needsr [C10] result ==> proof.DLEQ.R != ""
+
+//@ func VerifyBlindSignatureDLEQ
+//@   tags C10
+//@   safety C06 C10
+//@   requires A != nil
+//@   calls crypto.VerifyDLEQ asserts @parsed [C10] sc.of(e.Key) == sc.frombytes(hexdec(dleq.E)) && sc.of(s.Key) == sc.frombytes(hexdec(dleq.S)) && hexok(B_str) && pk.pt(*B_) == pt.parse(hexdec(B_str)) && hexok(C_str) && pk.pt(*C_) == pt.parse(hexdec(C_str)) && pk.pt(*A) == old(pk.pt(*A))
+
+// Every proof that carries a DLEQ must verify under the key of ITS amount; an
+// amount without key is a failure, not a skip.
+//@ func VerifyProofsDLEQ
+//@   tags C10
+//@   safety C06 C10
+//@   requires forall k :: (k in keyset.PublicKeys) ==> keyset.PublicKeys[k] != nil
+//@   ensures @all [C10] result ==> (forall i :: 0 <= i && i < len(proofs) && proofs[i].DLEQ != nil ==> (proofs[i].Amount in keyset.PublicKeys) && dleq.verdict(proofs[i], *keyset.PublicKeys[proofs[i].Amount]))
+//@   ensures @some [C10] !result ==> (exists i :: 0 <= i && i < len(proofs) && proofs[i].DLEQ != nil && !((proofs[i].Amount in keyset.PublicKeys) && dleq.verdict(proofs[i], *keyset.PublicKeys[proofs[i].Amount])))
+//@   loop range(proofs) invariant 0 <= i && i <= len(proofs) && (forall j :: 0 <= j && j < i && proofs[j].DLEQ != nil ==> (proofs[j].Amount in keyset.PublicKeys) && dleq.verdict(proofs[j], *keyset.PublicKeys[proofs[j].Amount]))
